@@ -78,6 +78,48 @@ pub fn digits_p(rng: &mut Rng, len: usize, pats: &[Pat]) -> Vec<u64> {
     digits(rng, len, p)
 }
 
+/// hierarchical pattern: halves are recursively all-zero / all-ones / near-ones / random blocks, so that
+/// the differences formed by divide-and-conquer multiplication are extreme at several recursion levels
+pub fn hier(rng: &mut Rng, len: usize) -> Vec<u64> {
+    fn fill(rng: &mut Rng, d: &mut [u64]) {
+        let n = d.len();
+        if n == 0 {
+            return;
+        }
+        let k = rng.below(if n > 8 { 8 } else { 5 });
+        match k {
+            0 => d.iter_mut().for_each(|x| *x = 0),
+            1 => d.iter_mut().for_each(|x| *x = u64::MAX),
+            2 => {
+                d.iter_mut().for_each(|x| *x = u64::MAX);
+                d[0] = u64::MAX - 1;
+            }
+            3 => {
+                d.iter_mut().for_each(|x| *x = 0);
+                d[0] = 1 + rng.below(2);
+            }
+            4 => d.iter_mut().for_each(|x| *x = rng.next()),
+            _ => {
+                // odd and even splits both occur in the code: split at floor(n/2)
+                let (lo, hi) = d.split_at_mut(n / 2);
+                fill(rng, lo);
+                fill(rng, hi);
+            }
+        }
+    }
+    let mut d = vec![0u64; len];
+    if len == 0 {
+        return d;
+    }
+    let (lo, hi) = d.split_at_mut(len / 2);
+    fill(rng, lo);
+    fill(rng, hi);
+    if d[len - 1] == 0 {
+        d[len - 1] = u64::MAX;
+    }
+    d
+}
+
 pub fn le_bytes(d: &[u64]) -> Vec<u8> {
     let mut out = Vec::with_capacity(d.len() * 8);
     for w in d {
